@@ -78,6 +78,57 @@ def diverges(fn, region):
         any('panic' in callee_name(fn.blocks[b]['term']) for b in region if fn.blocks[b]['term']['k'] == 'call')
 
 
+def check_referral_glue(R, F):
+    dr = F.fn(Q + 'do_referral')
+    direct = calls_in(dr, Q + 'add_additional_addresses')
+    clos = F.closures_of(Q + 'do_referral')
+    inclos = [(c, b, t) for c in clos for b, t in calls_in(c, Q + 'add_additional_addresses')]
+    pushes = calls_in(dr, 'std::vec::Vec::<T, A>::push')
+    glue_vec = other_vec = None
+    for b, t in pushes:
+        g = paths.dom_guards(dr, b)
+        base = dr.canon({'l': t['args'][0]['pl']['l'], 'p': ['deref'], 'ty': ''})['l']
+        if any(re.match(r'^Name::eq_or_subdomain_of\(.*,arg2\) not in \[0\]$', x) for x in g):
+            glue_vec = base
+        elif any(re.match(r'^Name::eq_or_subdomain_of\(.*,arg2\) in \[0\]$', x) for x in g):
+            other_vec = base
+    R.require(glue_vec is not None and other_vec is not None and glue_vec != other_vec, 'referral-glue', Q + 'do_referral|classification', dr.where(),
+              'NS targets split by eq_or_subdomain_of(child_zone)', 'cannot find the split of NS targets by eq_or_subdomain_of(child_zone) into two vectors')
+
+    def iterated_vec(fn, operand):
+        sl = slice_of(fn, operand)
+        out = set()
+        for n, b, t in sl.calls():
+            if n.endswith('IntoIterator>::into_iter') and 'Vec' in n:
+                a = t['args'][0]
+                if is_place(a):
+                    out.add(fn.canon(a['pl'])['l'])
+        return out
+    ok = len(direct) == 1
+    detail = ''
+    if ok:
+        b, t = direct[0]
+        vecs = iterated_vec(dr, t['args'][1])
+        nxt = dr.blocks[t['t']]['term'] if t['t'] is not None else None
+        propagated = nxt is not None and nxt['k'] == 'call' and callee_name(nxt).endswith('Try>::branch') and is_place(nxt['args'][0]) and nxt['args'][0]['pl']['l'] == t['dest']['l']
+        ok = vecs == {glue_vec} and propagated and const_name(t['args'][2]) == 'true'
+        detail = 'iterates %s (glue vector is _%s), error propagated with ?: %s, search_below_cuts=%s' % (sorted(vecs), glue_vec, propagated, const_name(t['args'][2]))
+    R.require(ok, 'referral-glue', Q + 'do_referral|in-bailiwick-mandatory', dr.where(direct[0][0]) if direct else dr.where(),
+              'in-bailiwick glue is added with the error propagated, below cuts', 'in-bailiwick glue is not added unconditionally with its error propagated: ' + (detail or '%d direct add_additional_addresses calls' % len(direct)))
+    ex = calls_in(dr, Q + 'execute_allowing_truncation')
+    ok = len(ex) == 1 and len(inclos) == 1
+    if ok:
+        b, t = ex[0]
+        sl = slice_of(dr, t['args'][0])
+        clos_built = {st['rv']['def'] for blk in dr.blocks for st in blk['stmts'] if st['k'] == 'assign' and st['rv']['k'] == 'agg' and st['rv']['ak'] == 'closure'}
+        vecs = iterated_vec(dr, t['args'][0])
+        ok = inclos[0][0].gpath in clos_built and other_vec in vecs and glue_vec not in vecs
+    R.require(ok, 'referral-glue', Q + 'do_referral|others-optional', dr.where(), 'other name servers only through execute_allowing_truncation',
+              'addresses of name servers outside the delegated zone are not confined to execute_allowing_truncation over the non-glue vector')
+    R.floor('referral-glue', 3)
+
+
+
 def check(R, F):
     # ---- (a) outcome tables
     for (fpath, enum), spec in SPEC.items():
@@ -198,53 +249,7 @@ def check(R, F):
     R.floor('cname-limit', 6)
 
     # ---- (d) referral glue
-    dr = F.fn(Q + 'do_referral')
-    direct = calls_in(dr, Q + 'add_additional_addresses')
-    clos = F.closures_of(Q + 'do_referral')
-    inclos = [(c, b, t) for c in clos for b, t in calls_in(c, Q + 'add_additional_addresses')]
-    pushes = calls_in(dr, 'std::vec::Vec::<T, A>::push')
-    glue_vec = other_vec = None
-    for b, t in pushes:
-        g = paths.dom_guards(dr, b)
-        base = dr.canon({'l': t['args'][0]['pl']['l'], 'p': ['deref'], 'ty': ''})['l']
-        if any(re.match(r'^Name::eq_or_subdomain_of\(.*,arg2\) not in \[0\]$', x) for x in g):
-            glue_vec = base
-        elif any(re.match(r'^Name::eq_or_subdomain_of\(.*,arg2\) in \[0\]$', x) for x in g):
-            other_vec = base
-    R.require(glue_vec is not None and other_vec is not None and glue_vec != other_vec, 'referral-glue', Q + 'do_referral|classification', dr.where(),
-              'NS targets split by eq_or_subdomain_of(child_zone)', 'cannot find the split of NS targets by eq_or_subdomain_of(child_zone) into two vectors')
-
-    def iterated_vec(fn, operand):
-        sl = slice_of(fn, operand)
-        out = set()
-        for n, b, t in sl.calls():
-            if n.endswith('IntoIterator>::into_iter') and 'Vec' in n:
-                a = t['args'][0]
-                if is_place(a):
-                    out.add(fn.canon(a['pl'])['l'])
-        return out
-    ok = len(direct) == 1
-    detail = ''
-    if ok:
-        b, t = direct[0]
-        vecs = iterated_vec(dr, t['args'][1])
-        nxt = dr.blocks[t['t']]['term'] if t['t'] is not None else None
-        propagated = nxt is not None and nxt['k'] == 'call' and callee_name(nxt).endswith('Try>::branch') and is_place(nxt['args'][0]) and nxt['args'][0]['pl']['l'] == t['dest']['l']
-        ok = vecs == {glue_vec} and propagated and const_name(t['args'][2]) == 'true'
-        detail = 'iterates %s (glue vector is _%s), error propagated with ?: %s, search_below_cuts=%s' % (sorted(vecs), glue_vec, propagated, const_name(t['args'][2]))
-    R.require(ok, 'referral-glue', Q + 'do_referral|in-bailiwick-mandatory', dr.where(direct[0][0]) if direct else dr.where(),
-              'in-bailiwick glue is added with the error propagated, below cuts', 'in-bailiwick glue is not added unconditionally with its error propagated: ' + (detail or '%d direct add_additional_addresses calls' % len(direct)))
-    ex = calls_in(dr, Q + 'execute_allowing_truncation')
-    ok = len(ex) == 1 and len(inclos) == 1
-    if ok:
-        b, t = ex[0]
-        sl = slice_of(dr, t['args'][0])
-        clos_built = {st['rv']['def'] for blk in dr.blocks for st in blk['stmts'] if st['k'] == 'assign' and st['rv']['k'] == 'agg' and st['rv']['ak'] == 'closure'}
-        vecs = iterated_vec(dr, t['args'][0])
-        ok = inclos[0][0].gpath in clos_built and other_vec in vecs and glue_vec not in vecs
-    R.require(ok, 'referral-glue', Q + 'do_referral|others-optional', dr.where(), 'other name servers only through execute_allowing_truncation',
-              'addresses of name servers outside the delegated zone are not confined to execute_allowing_truncation over the non-glue vector')
-    R.floor('referral-glue', 3)
+    check_referral_glue(R, F)
 
     # ---- (e) additional-section processing
     ap = F.fn(Q + 'do_additional_section_processing')
